@@ -53,7 +53,8 @@ real calendar date of that year and either a time of day or the form `24:00:00`,
 `Timeline.ofFields` — `24:00:00` is the first instant of the next day, also on the 31st of December
 of BCE years and of years ≥ 9999 (former F11f), with the leap years of the proleptic Gregorian
 calendar in both eras (former F11c/F11e). -/
-theorem mk_spec (year m d h mi s us : Int) (tz : Option Int) (hy : year ≠ 0) (hyb : year.natAbs < 2 ^ 31)
+theorem mk_spec (year m d h mi s us : Int) (tz : Option Int) (hy : year ≠ 0) (hyb : year.natAbs ≤ 2 ^ 31)
+    (hnext : (m = 12 ∧ d = 31 ∧ h = 24) → (year + 1).natAbs ≤ 2 ^ 31)
     (hm : 1 ≤ m ∧ m ≤ 12) (hd : 1 ≤ d ∧ d ≤ monthLen (astro year) m)
     (ht : (0 ≤ h ∧ h ≤ 23 ∧ 0 ≤ mi ∧ mi ≤ 59 ∧ 0 ≤ s ∧ s ≤ 59 ∧ 0 ≤ us ∧ us ≤ 999999) ∨
           (h = 24 ∧ mi = 0 ∧ s = 0 ∧ us = 0)) :
@@ -80,7 +81,7 @@ theorem mk_spec (year m d h mi s us : Int) (tz : Option Int) (hy : year ≠ 0) (
         by_cases h1 : year = -1
         · subst h1; decide
         · have : (year == -1) = false := by simpa using h1
-          rw [this]; simp only [Bool.false_eq_true, ↓reduceIte]; omega
+          rw [this]; simp only [Bool.false_eq_true, ↓reduceIte]; exact hnext ⟨rfl, rfl, rfl⟩
       have hjan : 1 ≤ (1 : Int) ∧ (1 : Int) ≤ monthDays (proxyLeap (if year == -1 then 1 else year + 1)) 1 := by
         simp [monthDays]
       have := mkCore_ok (if year == -1 then 1 else year + 1) 1 1 0 0 0 0 tz hs.2 hbound (by omega) hjan
